@@ -238,7 +238,12 @@ bool Exec::apply(const Op& o) {
             expect((ok != 0) == (c != nullptr), "model:replace-key", std::string("ReplaceItemInObject(\"") + ks + "\") returned " + std::to_string(ok) + (c ? " although a member matches" : " although no member matches")); if ((ok != 0) != (c != nullptr)) return true;
             // the replacement's key is rewritten to the lookup key even when nothing matched (not constrained on refusal)
             if (ok) { x->haskey = true; x->key = ks; x->ckey = false; x->ckeyptr = nullptr; }
-            else { const char* now = x->real->string; if (now && ks == now) { x->haskey = true; x->key = ks; x->ckey = false; x->ckeyptr = nullptr; } }
+            else {
+                // refused: the replacement stays caller-owned; its key is either untouched or has been re-written to an owned copy of the lookup key
+                const char* now = x->real->string; bool konst = (x->real->type & cJSON_StringIsConst) != 0;
+                bool untouched = (now != nullptr) == x->haskey && (!now || x->key == now) && konst == (x->haskey && x->ckey);
+                if (!untouched) { if (now && ks == now && !konst) { x->haskey = true; x->key = ks; x->ckey = false; x->ckeyptr = nullptr; } else fail("model:replace-refused-item-damaged", "after a refused ReplaceItemInObject the replacement's key is neither its old key nor a copy of the lookup key"); }
+            }
         }
         if (!c) return true;
         size_t pos = std::find(p->kids.begin(), p->kids.end(), c) - p->kids.begin();
